@@ -673,3 +673,146 @@ func runRewind(sc *streamScenario, rec *recorder) {
 		})
 	}
 }
+
+// ---------- C08: read fragmentation, reader kinds, framing ----------
+
+// reframe carries the 188-byte packets in frames of size bytes: sync byte, size-188 ignored bytes, the packet's other 187 bytes
+func reframe(stream []byte, size int, rg *rng) []byte {
+	k := size - 188
+	out := make([]byte, 0, len(stream)/188*size)
+	for i := 0; i+188 <= len(stream); i += 188 {
+		out = append(out, 0x47)
+		for j := 0; j < k; j++ {
+			out = append(out, byte(rg.pick(0x00, 0xff, 0x11, 0x48, 0x46)))
+		}
+		out = append(out, stream[i+1:i+188]...)
+	}
+	return out
+}
+
+type readerCfg struct {
+	size   int // frame size
+	auto   bool
+	reader string
+	sched  []int
+	desc   string
+}
+
+func runReader(sc *streamScenario, rec *recorder, level int) {
+	bs := buildStream(sc.Units, sc.Pkts, sc.PMTPIDs, sc.Seed, sc.Complete)
+	rec.ev(M{"ev": "reset", "t": sc.SID, "kind": "reader", "npkts": len(bs.pkts)})
+	rg := newRng(sc.Seed ^ 0x8888)
+	bound := len(bs.pkts) + len(bs.units)*4 + 10
+	frames := map[int][]byte{188: bs.bytes}
+	for _, sz := range []int{189, 190, 191, 192, 204, 250} {
+		frames[sz] = reframe(bs.bytes, sz, rg)
+	}
+	var cfgs []readerCfg
+	add := func(size int, auto bool, reader string, sched []int, desc string) {
+		cfgs = append(cfgs, readerCfg{size, auto, reader, sched, desc})
+	}
+	add(188, false, "bytes", nil, "reference") // run 0
+	for _, sz := range []int{188, 189, 190, 191, 192} {
+		for _, rd := range []string{"bytes", "bufio", "plain"} {
+			add(sz, true, rd, nil, "full")
+		}
+	}
+	for _, sz := range []int{192, 204, 250, 190} {
+		for _, rd := range []string{"bytes", "bufio", "plain"} {
+			add(sz, false, rd, nil, "full")
+		}
+	}
+	fixed := []int{1, 2, 3, 7, 100, 187, 188, 189, 192, 193, 194, 376, 400}
+	if level > 1 {
+		fixed = nil
+		for c := 1; c <= 400; c++ {
+			fixed = append(fixed, c)
+		}
+	}
+	for _, c := range fixed {
+		sz := []int{188, 192, 204}[c%3]
+		add(sz, false, "chunk", []int{c}, fmt.Sprintf("fixed%d", c))
+		add([]int{188, 189, 192}[c%3], true, "chunkseek", []int{c}, fmt.Sprintf("fixed%d", c))
+		add([]int{188, 190, 192}[c%3], true, "bufiochunk", []int{c}, fmt.Sprintf("fixed%d", c))
+		add([]int{188, 191, 192}[c%3], true, "chunk", []int{c}, fmt.Sprintf("fixed%d", c))
+	}
+	nb := 12
+	if level > 1 {
+		nb = 400
+	}
+	for j := 0; j < nb; j++ {
+		off := 1 + rg.intn(400)
+		if level > 1 {
+			off = j + 1
+		}
+		s := []int{off, 1 << 20}
+		add(188, false, "chunk", s, fmt.Sprintf("boundary%d", off))
+		add([]int{188, 192}[j%2], true, "chunkseek", s, fmt.Sprintf("boundary%d", off))
+		add([]int{188, 192}[j%2], true, "bufiochunk", s, fmt.Sprintf("boundary%d", off))
+	}
+	nr := 6
+	if level > 1 {
+		nr = 60
+	}
+	for j := 0; j < nr; j++ {
+		var s []int
+		for i := 0; i < 50; i++ {
+			s = append(s, rg.pick(1, 2, 5, 50, 187, 188, 189, 300, 1+rg.intn(400)))
+		}
+		add([]int{188, 192, 204}[j%3], false, "chunk", s, "random")
+		add([]int{188, 189, 190, 191, 192}[j%5], true, "chunkseek", s, "random")
+		add([]int{188, 189, 190, 191, 192}[j%5], true, "bufiochunk", s, "random")
+		add([]int{188, 192}[j%2], true, "chunk", s, "random")
+	}
+	for r, c := range cfgs {
+		stream := frames[c.size]
+		// auto-detection domain: two packets, and no sync-like byte in the tail of the first frame (DESIGN.md 7)
+		if c.auto {
+			ok := len(bs.pkts) >= 2
+			for i := 188; i < c.size && ok; i++ {
+				if stream[i] == 0x47 {
+					ok = false
+				}
+			}
+			if !ok {
+				continue
+			}
+		}
+		class := "ref"
+		if c.auto && (c.reader == "plain" || c.reader == "chunk") {
+			class = "plainauto"
+		}
+		run := demuxRun{PSize: c.size}
+		if c.auto {
+			run.PSize = -1
+		}
+		rec.ev(M{"ev": "cfg", "r": r, "size": c.size, "auto": c.auto, "reader": c.reader, "sched": c.desc, "class": class})
+		{
+			dmx := newDemuxer(makeReader(c.reader, stream, c.sched), run)
+			for k := 0; k < bound; k++ {
+				var p *astits.Packet
+				var err error
+				if pn := safeCall(func() { p, err = dmx.NextPacket() }); pn != nil {
+					rec.ev(M{"ev": "perr", "run": r, "msg": fmt.Sprint(pn), "panic": true})
+					break
+				}
+				if err != nil {
+					if err == astits.ErrNoMorePackets {
+						rec.ev(M{"ev": "peof", "run": r})
+					} else {
+						rec.ev(M{"ev": "perr", "run": r, "msg": err.Error(), "panic": false})
+					}
+					break
+				}
+				rec.ev(M{"ev": "packet", "run": r, "hdg": hdrDigest(p)})
+			}
+		}
+		dmx := newDemuxer(makeReader(c.reader, stream, c.sched), run)
+		drainData(dmx, bound, func() int { return 0 }, func(e M) {
+			e["run"] = r
+			rec.ev(e)
+		})
+	}
+}
+
+func newBufio(r io.Reader) *bufio.Reader { return bufio.NewReaderSize(r, 4096) }
